@@ -209,7 +209,9 @@ func fieldKey(owner types.Type, field string) string {
 // ---------- assumptions and obligations
 
 func (fc *FnCtx) assume(st *State, t *Term) {
-	if isTrue(t) {
+	if isTrue(t) || t.Bound {
+		// (facts mentioning a quantifier-bound variable arise when a contract expression is
+		// translated under a binder; they cannot be hypotheses)
 		return
 	}
 	fc.hyps = append(fc.hyps, fc.tb.Implies(st.reach, t))
